@@ -74,15 +74,16 @@ CHECKS = {
     ),
     "C09": dict(
         engine="pyvc",
-        technique="contract-based deductive verification of the bit-level ordering lemmas (adjacency, order, transfer, key injectivity, stride/first-child contracts) under the sort key re-read from the source; loop level covered by a bounded native stand-in, labelled and not counted",
+        technique="contract-based deductive verification at two levels: compact's loops verified over the abstraction (sorted by the sort key, pairwise unrelated, an unchanged pass skips no group) with callees by contract; the ordering lemmas it uses (adjacency, order, transfer, key injectivity, stride / first-child / sort-key contracts) discharged at bit level under the key re-read from the source",
         category="proof",
-        text=("Proved for every level r=0..29 and an arbitrary second cell, all positions at once, over the real key function, is_first_child, get_stride and cell_to_parent: siblings "
-              "are in key order at the tested stride, no cell unrelated to a sibling group sorts inside it, merging a group keeps the neighbours' order and unrelatedness, distinct cells "
-              "have distinct keys; plus the source-level obligation that the input is consumed only through sorted(set(cells)). These are the facts that make the sorted scan find every "
-              "complete group. NOT proved: the loop-level induction from these lemmas to 'no complete group is left' - it is covered by a bounded native check on a structured antichain "
-              "pool (bounded, never counted as discharged); canonicity additionally uses C08 and the paper lemma A10."),
-        design_ref="DESIGN.md section 8 / C09",
-        note=PYVC_NOTE + " Partial: lemmas proved, loop level bounded (stated in evidence.coverage.bounded).",
+        text=("For every list of valid, pairwise non-ancestral cells (duplicates allowed): the output of the real compact is strictly increasing in the key the code sorts by (so each cell "
+              "occurs once), pairwise unrelated, and contains no complete contiguous sibling group (loop invariants on both loops; last pass unchanged => nothing skipped); a list lemma shows "
+              "that in such a list a complete group that is a subset is contiguous, so no complete group of 4, 5 or 12 is left at all. The input is consumed only through sorted(set(cells)), "
+              "so order and duplication cannot matter. Hypotheses used at loop level are discharged at bit level for every level r = 0..29 with all positions symbolic over the real "
+              "_hierarchy_key, is_first_child, get_stride, cell_to_parent. Canonicity / idempotence then follow with C08 and the paper lemma A10 (unique group-free antichain per region); "
+              "a bounded native check of the whole predicate on a structured antichain pool runs as an additional labelled stand-in."),
+        design_ref="DESIGN.md sections 8, 15 / C09",
+        note=PYVC_NOTE + " Loop level: ints mathematical, RES/FIRSTC/STRIDEF/PAR1/KEYF/REL uninterpreted; builtin contract of sorted(set(), key) assumed (strictly increasing enumeration of the element set); A10 on paper.",
     ),
     "C10": dict(
         engine="pyvc",
